@@ -790,6 +790,18 @@ Proof.
         induction l as [|[k g] r IH]; cbn; [discriminate|]. destruct (Z.eqb_spec c k); [now left|]. intros H. right. now apply IH.
 Qed.
 
+(* ---------- the step before validation when no matrix is supplied ---------- *)
+Lemma prevalidation_l :
+  (forall profiles speeds, pre_validation_panics true profiles speeds = false)
+  /\ (forall profiles speeds, profiles <> [] -> (forall s, In s speeds -> 0 < s) -> pre_validation_panics false profiles speeds = false)
+  /\ (forall d, approx_panics d = pre_validation_panics false (d_profiles d) []).
+Proof.
+  split; [reflexivity|split].
+  - intros profiles speeds Hp Hs. unfold pre_validation_panics. destruct profiles as [|p0 ps]; [congruence|]. cbn [negb is_nil andb orb].
+    apply existsb_false. intros s Hin. apply Z.leb_gt. now apply Hs.
+  - intros d. unfold approx_panics, pre_validation_panics. now destruct (d_profiles d).
+Qed.
+
 (* ---------- create_transport_costs: the errorCodes loop ---------- *)
 Lemma error_loop_some ec : forall i tt dd x y, error_loop i ec tt dd = Some (x, y) ->
   List.length x = List.length ec /\ List.length y = List.length ec.
